@@ -141,11 +141,11 @@ theorem worstOf_mem {rs : List (Scored S)} {w : Scored S} {rest : List (Scored S
     (h : worstOf rs = some (w, rest)) : ∀ z ∈ rest, z ∈ rs :=
   (popMax_mem _ h).2
 
-theorem visitNbr_results (mt : Metric) (st : Store S) (q : List S) (ef : Nat) (worst : S)
+theorem visitNbr_results (mt : Metric) (st : Store S) (q : List S) (ef : Nat)
     (s : SState S) (nb : Nat) (P : Scored S → Prop)
     (hP : ∀ r ∈ s.results, P r)
     (hnew : ∀ sc, simOpt mt st q nb = some sc → P ⟨nb, sc⟩) :
-    ∀ r ∈ (visitNbr mt st q ef worst s nb).results, P r := by
+    ∀ r ∈ (visitNbr mt st q ef s nb).results, P r := by
   unfold visitNbr
   split
   · exact hP
@@ -169,17 +169,17 @@ theorem visitNbr_results (mt : Metric) (st : Store S) (q : List S) (ef : Nat) (w
         · exact hcons
       · simpa using hP
 
-theorem foldl_visitNbr_results (mt : Metric) (st : Store S) (q : List S) (ef : Nat) (worst : S)
+theorem foldl_visitNbr_results (mt : Metric) (st : Store S) (q : List S) (ef : Nat)
     (P : Scored S → Prop) (hnew : ∀ nb sc, simOpt mt st q nb = some sc → P ⟨nb, sc⟩) :
     ∀ (l : List Nat) (s : SState S), (∀ r ∈ s.results, P r) →
-      ∀ r ∈ (l.foldl (visitNbr mt st q ef worst) s).results, P r := by
+      ∀ r ∈ (l.foldl (visitNbr mt st q ef) s).results, P r := by
   intro l
   induction l with
   | nil => intro s h; simpa using h
   | cons nb rest ih =>
     intro s h
     simp only [List.foldl_cons]
-    exact ih _ (visitNbr_results mt st q ef worst s nb P h (hnew nb))
+    exact ih _ (visitNbr_results mt st q ef s nb P h (hnew nb))
 
 theorem searchLoop_results (mt : Metric) (st : Store S) (g : Graph) (q : List S) (ef : Nat)
     (P : Scored S → Prop) (hnew : ∀ nb sc, simOpt mt st q nb = some sc → P ⟨nb, sc⟩) :
@@ -193,11 +193,9 @@ theorem searchLoop_results (mt : Metric) (st : Store S) (g : Graph) (q : List S)
     unfold searchLoop
     split
     · exact h
-    · simp only
-      split <;>
-      · split
-        · exact h
-        · exact ih _ (foldl_visitNbr_results mt st q ef _ P hnew _ _ (by simpa using h))
+    · split
+      · exact h
+      · exact ih _ (foldl_visitNbr_results mt st q ef P hnew _ _ (by simpa using h))
 
 /-- every result of `search_internal` is good, provided the entry point has a vector -/
 theorem searchInternal_good (mt : Metric) (st : Store S) (g : Graph) (q : List S) (ef : Nat)
@@ -307,27 +305,27 @@ theorem simOpt_eq_simOr {mt : Metric} {st : Store S} {q : List S} {id : Nat}
   | none => simp [hv] at h
   | some v => simp
 
-theorem visitNbr_noop (mt : Metric) (st : Store S) (q : List S) (ef : Nat) (worst : S)
-    (s : SState S) (nb : Nat) (h : nb ∈ s.visited) : visitNbr mt st q ef worst s nb = s := by
+theorem visitNbr_noop (mt : Metric) (st : Store S) (q : List S) (ef : Nat)
+    (s : SState S) (nb : Nat) (h : nb ∈ s.visited) : visitNbr mt st q ef s nb = s := by
   unfold visitNbr
   simp [h]
 
-theorem foldl_visitNbr_noop (mt : Metric) (st : Store S) (q : List S) (ef : Nat) (worst : S) :
+theorem foldl_visitNbr_noop (mt : Metric) (st : Store S) (q : List S) (ef : Nat) :
     ∀ (L : List Nat) (s : SState S), (∀ nb ∈ L, nb ∈ s.visited) →
-      L.foldl (visitNbr mt st q ef worst) s = s := by
+      L.foldl (visitNbr mt st q ef) s = s := by
   intro L
   induction L with
   | nil => intro s _; rfl
   | cons nb rest ih =>
     intro s h
     simp only [List.foldl_cons]
-    rw [visitNbr_noop mt st q ef worst s nb (h nb (by simp))]
+    rw [visitNbr_noop mt st q ef s nb (h nb (by simp))]
     exact ih s (fun x hx => h x (by simp [hx]))
 
-theorem visitNbr_fresh (mt : Metric) (st : Store S) (q : List S) (ef : Nat) (worst : S)
+theorem visitNbr_fresh (mt : Metric) (st : Store S) (q : List S) (ef : Nat)
     (s : SState S) (nb : Nat) (hnv : nb ∉ s.visited) (hv : (vecAt st nb).isSome)
     (hlen : s.results.length < ef) :
-    visitNbr mt st q ef worst s nb =
+    visitNbr mt st q ef s nb =
       { visited := nb :: s.visited, cands := scOf mt st q nb :: s.cands,
         results := scOf mt st q nb :: s.results } := by
   unfold visitNbr
@@ -335,10 +333,10 @@ theorem visitNbr_fresh (mt : Metric) (st : Store S) (q : List S) (ef : Nat) (wor
   simp [hnv, simOpt_eq_simOr hv, hlen, hgt, scOf]
 
 /-- visiting a list of fresh nodes that all fit into the result heap records all of them -/
-theorem foldl_visitNbr_fresh (mt : Metric) (st : Store S) (q : List S) (ef : Nat) (worst : S) :
+theorem foldl_visitNbr_fresh (mt : Metric) (st : Store S) (q : List S) (ef : Nat) :
     ∀ (L : List Nat) (s : SState S), L.Nodup → (∀ nb ∈ L, nb ∉ s.visited) →
       (∀ nb ∈ L, (vecAt st nb).isSome) → s.results.length + L.length ≤ ef →
-      L.foldl (visitNbr mt st q ef worst) s =
+      L.foldl (visitNbr mt st q ef) s =
         { visited := L.reverse ++ s.visited, cands := L.reverse.map (scOf mt st q) ++ s.cands,
           results := L.reverse.map (scOf mt st q) ++ s.results } := by
   intro L
@@ -348,7 +346,7 @@ theorem foldl_visitNbr_fresh (mt : Metric) (st : Store S) (q : List S) (ef : Nat
     intro s hnd hfresh hvec hlen
     rw [List.nodup_cons] at hnd
     simp only [List.foldl_cons, List.length_cons] at hlen ⊢
-    rw [visitNbr_fresh mt st q ef worst s nb (hfresh nb (by simp)) (hvec nb (by simp)) (by omega)]
+    rw [visitNbr_fresh mt st q ef s nb (hfresh nb (by simp)) (hvec nb (by simp)) (by omega)]
     rw [ih _ hnd.2]
     · simp
     · intro x hx
@@ -373,12 +371,10 @@ theorem searchLoop_stable (mt : Metric) (st : Store S) (g : Graph) (q : List S) 
     · rfl
     · rename_i best rest hpop
       obtain ⟨hb, hrest⟩ := popMax_mem _ hpop
-      simp only
-      split <;>
-      · split
-        · rfl
-        · rw [foldl_visitNbr_noop mt st q ef _ _ _ (by simpa using h best hb)]
-          exact ih _ (fun c hc => h c (hrest c hc))
+      split
+      · rfl
+      · rw [foldl_visitNbr_noop mt st q ef _ _ (by simpa using h best hb)]
+        exact ih _ (fun c hc => h c (hrest c hc))
 
 theorem popMax_singleton {α : Type} (lt : α → α → Bool) (x : α) : popMax lt [x] = some (x, []) := by
   simp [popMax]
@@ -396,7 +392,7 @@ theorem searchInternal_star (mt : Metric) (st : Store S) (g : Graph) (q : List S
   have hfuel : g.nbrs.length + 2 = (g.nbrs.length + 1) + 1 := rfl
   rw [hfuel]
   unfold searchLoop
-  simp only [popMax_singleton, worstOf]
+  simp only [popMax_singleton]
   split
   · -- the loop stops at once: only possible when the beam is 1, i.e. `L = []`
     rename_i hc
@@ -407,7 +403,7 @@ theorem searchInternal_star (mt : Metric) (st : Store S) (g : Graph) (q : List S
       | cons a b => simp at hef; omega
     subst this
     simp [scOf]
-  · rw [hL, foldl_visitNbr_fresh mt st q ef _ L _ hnd
+  · rw [hL, foldl_visitNbr_fresh mt st q ef L _ hnd
       (by intro nb hnb; simp only [List.mem_singleton]; intro h; subst h; exact heL hnb) hvec
       (by simp only [List.length_cons, List.length_nil]; omega)]
     rw [searchLoop_stable]
@@ -846,6 +842,25 @@ def CandOK (requireText : Bool) (segs : List (Segment κ S)) (c : Clause κ S) (
     d.rawVec c.field = some raw ∧
     x.score = mul (metricSim c.metric c.vector (prep c.metric raw)) c.boost
 
+/-- every element the fetch loop returns was found by one of its searches and is kept -/
+theorem fetchLoop_mem (find : Nat → List (Scored S)) (keep : Scored S → Bool) (wanted available : Nat) :
+    ∀ (fuel searchK : Nat) (x : Scored S), x ∈ fetchLoop find keep wanted available fuel searchK →
+      ∃ k, x ∈ find k ∧ keep x = true := by
+  intro fuel
+  induction fuel with
+  | zero =>
+    intro searchK x hx
+    simp only [fetchLoop] at hx
+    have := List.mem_filter.mp (List.mem_of_mem_take hx)
+    exact ⟨searchK, this.1, this.2⟩
+  | succ n ih =>
+    intro searchK x hx
+    simp only [fetchLoop] at hx
+    split at hx
+    · have := List.mem_filter.mp (List.mem_of_mem_take hx)
+      exact ⟨searchK, this.1, this.2⟩
+    · exact ih _ x hx
+
 theorem segCands_ok (requireText : Bool) (c : Clause κ S) (i : Nat) (sg : Segment κ S) (x : Cand S)
     (hx : x ∈ segCands requireText c i sg) :
     x.seg = i ∧ ∃ d raw, sg[x.doc]? = some d ∧ d.deleted = false ∧ d.passFilter = true ∧
@@ -858,9 +873,8 @@ theorem segCands_ok (requireText : Bool) (c : Clause κ S) (i : Nat) (sg : Segme
   · simp at hx
   · rw [List.mem_map] at hx
     obtain ⟨s, hs, rfl⟩ := hx
-    rw [List.mem_filter] at hs
-    obtain ⟨hs, hkeep⟩ := hs
-    have hgood := search_good c.metric (storeOf sg c.field c.metric) _ c.vector _ c.efSearch
+    obtain ⟨k', hs, hkeep⟩ := fetchLoop_mem _ _ _ _ _ _ s hs
+    have hgood := search_good c.metric (storeOf sg c.field c.metric) _ c.vector k' c.efSearch
       (buildGraph_entry c.metric (storeOf sg c.field c.metric) c.m c.efc) s hs
     obtain ⟨v, hv, hsc⟩ := hgood
     obtain ⟨d, raw, hd, hraw, rfl⟩ := vecAt_storeOf hv
